@@ -161,7 +161,7 @@ def run_quant_cases(ctx, cases_in):
             bad = "Rung.data is not sorted best first: %r" % (order,)
         if bad:
             ctx.violation("property", bad, case=c, signature=dict(function="Rung.quantile", mode=c["mode"]))
-        terms.append("(%s, %s, %s, %s, %s)" % (
+        terms.append("((%s, %s, %s, %s, %s) : quant_case)" % (
             blit(c["mode"] == "min"), "(%d # %d)" % (c["level"], c["next_level"]),
             lst(["(%s, %s)" % (zlit(i), q(v)) for i, v in enumerate(c["vals"])]),
             lst([zlit(i) for i in order]), optlit(impl_q, q)))
@@ -466,7 +466,7 @@ def seq_term(spec, res):
                                 optlit(nthr, zlit))
     evs = lst(["(%s, %s)" % (event_term(e), outcome_term(e["outcome"])) for e in res["events"]])
     info = lst(["(%s, %s)" % (zlit(a), natlit(b)) for a, b in res["info"]])
-    return "(%s, %s, %s, %s, %s)" % (cfg, lst([zlit(x) for x in res["levels"]]), natlit(spec["brackets"]), evs, info)
+    return "((%s, %s, %s, %s, %s) : seq_case)" % (cfg, lst([zlit(x) for x in res["levels"]]), natlit(spec["brackets"]), evs, info)
 
 
 def run(ctx, replay=None):
